@@ -1,5 +1,6 @@
 import ZixModel.Model.RingRA
 import ZixModel.Lemmas.RingRA
+import ZixModel.Model.RingRAX
 /-! # C04 — the ring is a correct single-producer/single-consumer channel on every schedule
 
 Property theorems only; helper lemmas live in `ZixModel/Lemmas/RingRA.lean`.
@@ -9,6 +10,12 @@ interleaving of the two threads at every shared-memory access and every value (f
 an acquire load may return. -/
 namespace Zix.C04
 open Zix.RingRA
+
+/-- The memory orders compiled into ring.c (`Generated/RingOrders.lean`, regenerated on every run from
+the instrumented object code) are the ones the machine of `Model/RingRA.lean` assumes: every load of
+the peer's head is at least acquire and every store of the own head at least release.  When this
+stops checking, the C04 check searches `Model/RingRAX.lean` with the observed orders for a racy schedule. -/
+theorem ring_orders_as_proved : Zix.RingRAX.Orders.observed = Zix.RingRAX.Orders.proved := by decide
 
 /-- No execution contains a data race: every plain buffer access is ordered (through a
 release/acquire pair) with the conflicting access of the other thread. -/
